@@ -56,3 +56,19 @@ pub fn any_system_time() -> SystemTime {
     let d = Duration::new(secs, nanos);
     if before { UNIX_EPOCH - d } else { UNIX_EPOCH + d }
 }
+
+// ---- rand: thread RNG replaced by an arbitrary-value source
+#[repr(align(16))]
+pub struct FakeRngCore([u8; 512]);
+pub fn fake_thread_rng() -> rand::rngs::ThreadRng {
+    let rc = std::rc::Rc::new(std::cell::UnsafeCell::new(FakeRngCore([0u8; 512])));
+    // keep one extra strong count so that dropping the fake never frees
+    std::mem::forget(rc.clone());
+    unsafe { std::mem::transmute::<std::rc::Rc<std::cell::UnsafeCell<FakeRngCore>>, rand::rngs::ThreadRng>(rc) }
+}
+pub fn rng_next_u32(_r: &mut rand::rngs::ThreadRng) -> u32 {
+    kani::any()
+}
+pub fn rng_next_u64(_r: &mut rand::rngs::ThreadRng) -> u64 {
+    kani::any()
+}
